@@ -44,6 +44,9 @@ func runC10(e *Env) {
 			e.S.Obs[i].Rule = "C10.empty"
 		}
 	}
+	// "every other text is rejected", by the parser and by Valid alike
+	ruleNoMatchRejects(e, "C10.reject", e.Fn("C10.reject", "roman", "DefaultParser"), e.Fn("C10.reject", "roman", "Valid"))
+	e.S.Floor("C10.reject", 2)
 	e.S.Floor("C10.groups", 1)
 	e.S.Floor("C10.empty", 2)
 	// the value function(s): in-repo callees of the parser that receive an element of the sub-match slice
